@@ -140,8 +140,10 @@ def run_case(case, ctx):
       os.mkdir(mdir)
       passes = [case['perm']] + ([case['perm2']] if case.get('perm2') else [])
       for ipass, perm_now in enumerate(passes):
-        # second pass: the SAME model directory, parameters.fits rewritten with its rows in another order (listings are
-        # looked up by model name, so nothing may remember the previous order)
+        # second pass: the SAME model directory, parameters.fits rewritten with its rows in another order and with revised
+        # values (a grid re-computed, a unit changed): listings show what the file holds NOW
+        if ipass == 1:
+            case = dict(case, params=dict((c_, [v * 1.75 + 3. for v in vals]) for c_, vals in case['params'].items()))
         stored = names
         if case.get('name_justify') == 'right':
             # names right-justified in the column (leading blanks of unequal length): names are compared without padding
